@@ -148,7 +148,7 @@ pub open spec fn tv_absent<Q: ?Sized, K, V>(tv: TV<(K, V)>, q: &Q) -> bool {
     forall|i: int| tv.items.contains_key(i) ==> !key_eq::<Q, K>(q, &(#[trigger] tv.items[i]).0)
 }
 pub open spec fn raw_absent<Q: ?Sized, K, V>(t: RawTable<(K, V)>, q: &Q) -> bool {
-    tv_absent::<Q, K, V>(t.table@, q) && (t.leftovers matches Some(lo) ==> tv_absent::<Q, K, V>(lo.table@, q))
+    forall|x: (K, V)| #[trigger] t.content().count(x) > 0 ==> !key_eq::<Q, K>(q, &x.0)
 }
 pub open spec fn kv_unique<K, V>(c: Multiset<(K, V)>) -> bool {
     &&& forall|x: (K, V)| #[trigger] c.count(x) <= 1
